@@ -124,6 +124,8 @@ def gen_rowsel(rng, n, P, unique=False):
             rows = [rng.randint(-n, n - 1) for _ in range(k)]
         return [kind, rows], kind + ("0" if not rows else "")
     mask = [1 if rng.random() < 0.6 else 0 for _ in range(n)]
+    if n and rng.random() < 0.15:
+        return ["blist", mask], "mask"       # a plain Python list of bools
     return ["mask", mask], "mask"
 
 
@@ -262,6 +264,11 @@ class Generator:
             rs, rcls = gen_rowsel(rng, n, self.P)
             c, ccls = gen_colslice(rng, max(lens, default=0), self.P)
             ix, cls = ["tup", rs, c], rcls + "," + ccls
+            q = rng.random()
+            if q < 0.04:
+                ix, cls = ["tup", rs, ["ell"]], rcls + ",..."          # a[rows, ...]
+            elif q < 0.08:
+                ix = ["tup", rs, ["ell"], c]                            # a[rows, ..., cols]
         d = self.fresh()
         o = self.emit({"op": "getitem", "src": v, "ix": ix, "dst": d}, f"sel[{cls}]@{min(self.depth.get(v, 0), 3)}")
         if d in self.ex.env:
